@@ -60,10 +60,14 @@ func Flatten(p *dsl.Program) []FlatPacket {
 // Algs lists the checksum algorithm names of a program with the type of the field using them.
 func Algs(p *dsl.Program) map[string]string {
 	out := map[string]string{}
+	mixed := map[string]bool{}
 	var walk func(k *dsl.Packet)
 	walk = func(k *dsl.Packet) {
 		for _, f := range k.Fields {
 			if f.Kind == dsl.KSum {
+				if t, seen := out[f.Alg]; seen && t != f.Type {
+					mixed[f.Alg] = true
+				}
 				out[f.Alg] = f.Type
 			}
 			if f.Kind == dsl.KInline {
@@ -73,6 +77,10 @@ func Algs(p *dsl.Program) map[string]string {
 	}
 	for _, k := range p.Packets {
 		walk(k)
+	}
+	// an algorithm name used with several result types cannot be registered as one typed service
+	for a := range mixed {
+		delete(out, a)
 	}
 	return out
 }
